@@ -2005,15 +2005,25 @@ def _reach_containers(v, acc=None):
     return acc
 
 
+_ENTRY_KEEPALIVE = []
+
+
 def _reach_ids(vals):
+    """ids of every container reachable from vals.  The objects are kept alive for the rest of the path: an entry
+    object that the code drops (x.lst = []) must not hand its id to an object allocated later."""
     seen = set()
     stack = list(vals)
+    keep = []
+    _ENTRY_KEEPALIVE.append(keep)
+    if len(_ENTRY_KEEPALIVE) > 4:
+        del _ENTRY_KEEPALIVE[0]
     while stack:
         v = stack.pop()
         if isinstance(v, (PObj, PList, PDict)):
             if id(v) in seen:
                 continue
             seen.add(id(v))
+            keep.append(v)
             if isinstance(v, PObj):
                 stack.extend(v.fields.values())
             elif isinstance(v, PList):
